@@ -346,6 +346,13 @@ CORPUS = [
         ["fndecl", "g", [["a", "int"], ["b", "int"]], "string", [ret_stm(["match", V("target"), ["aval", [V("a")], ["block", E(S("first"))]],
                                                                               ["aval", [V("b")], ["block", E(S("second"))]], ["aother", ["block", E(S("none"))]]])]],
         E(["tuple", ["call", V("f"), I(5)], ["call", V("f"), I(6)], ["call", V("g"), I(5), I(5)], ["call", V("g"), I(1), I(5)], ["call", V("g"), I(1), I(2)]])]),
+    # S29 (known finding, C04): a failing constant operation inside a function body is reported when the
+    # closure is CREATED at run time (the captured value has become a constant), even if the function is never called
+    ("closure-creation-reports-fold-error-of-uncalled-function", ["C04"], [
+        ["fndecl", "f", [["a", ["arr", "int"]]], "int", [
+            ["fndecl", "g", [], "int", [ret(["at", V("a"), I(1)])]],
+            ret(I(0))]],
+        E(["call", V("f"), ["array", I(0)]])]),
     ("sum-never-missing-return", ["C01", "C02"], [
         ["fndecl", "f", [], "int", [["set", "x", ["expr", ["post", ["post", ["array"], "~"], "$+"]]]]],
         E(["bin", "+", ["call", V("f")], I(1)])]),
